@@ -18,6 +18,21 @@ CLAIMED = {
  "C12": dict(cat="proof", ref="5-C12",
    text="Contract on the real BaseSampler.sample proved against an ABSTRACT (uninterpreted) sample_batch - i.e. for every scripted or random generator, every history, batch size, dimension and pass budget: shape preserved; first asked for batch_size, then each time for exactly the number of repeats found (>0); at most max_deduplication_passes redraws; with budget left the returned batch has no repeat against history or itself; rows never reported as repeats equal the first draw; each pass substitutes exactly the reported rows by the redraw rows (statement contract); history arrays not written.",
    note="find_and_get_duplicates (np.unique(axis=0)/argwhere pipeline) is an ASSUMED contract, not proved: its bounded stand-in enumerates small histories/batches over several float alphabets on the real function and a scripted-generator stand-in replays whole sample() runs against reference semantics; both are labelled bounded and not counted as discharged."),
+ "C02": dict(cat="proof", ref="5-C02",
+   text="The real Calibrator.calibrate is verified against a contract whose loop invariant is the alignment invariant of the five history arrays (equal lengths = sample counter, shapes, zero-based non-decreasing batch labels of completed batches only, every stored sampler label is an id of the table): proved for any number of batches, any abstract scheduler/sampler/loss, any batch sizes; rows once recorded never change (prefix preservation through vstack/hstack and the frame conditions of all callees); the return value is a sorted permutation of the recorded (parameter, loss) pairs.",
+   note="simulate_model (joblib generator pattern; row/ensemble pairing and seed order) and _set_samplers_seeds are ASSUMED contracts here; their content (series of row i = model on exactly that vector, loss of exactly those series) is covered only by the bounded stand-in C02/history, which re-derives every stored row on the real Calibrator. np.vstack/hstack/argsort are assumed library contracts."),
+ "C09": dict(cat="proof", ref="5-C09",
+   text="Proved from the source: the exactly-one-of constructor validation (raises ValueError iff both or neither of samplers/scheduler are given, otherwise returns the given scheduler or a round-robin over the given list); RoundRobinScheduler construction, get_next_sampler (samplers[batch_id mod n], no state change) and update (+1); calibrate() calls get_next_sampler then update exactly once per batch (loop invariant current_batch_index = start + b) and labels/sizes the batch by the designated sampler.",
+   note="The RL scheduler's bootstrap/queue clauses are NOT under contract yet (threads: see C10) - covered only by bounded end-to-end runs; persistence of the scheduler position across restore rests on the assumed pickle round-trip (C04). Bounded stand-ins: C09/round-robin-e2e, C09/constructor."),
+ "C11": dict(cat="proof", ref="5-C11",
+   text="Exceptional-path contracts proved from the source: BaseScheduler.session() (generator context manager, `yield` modelled with a normal and an exceptional continuation) ends the session on EVERY exit of the with-body; calibrate(), for an exception escaping from sampler.sample / simulate_model / compute_loss at any iteration, propagates it with the history invariant (aligned arrays, labels of completed batches only) re-established and no session left open.",
+   note="Thread liveness of the RL scheduler's end_session (join) is assumed (abstract contract); equality with the fault-free prefix relies on C01 determinism; both are exercised only by the bounded stand-in C11/fault-injection (fault at seeded invocation indices, both schedulers)."),
+ "C14": dict(cat="proof", ref="5-C14",
+   text="check_convergence proved equal to round(min(losses[:n]), p) == 0 for arrays of any length; calibrate() proved to (a) run exactly n batches without a precision, (b) never continue after a convergence test returned True (loop invariant `not conv_seen`), (c) stop early only because of convergence, (d) test the whole recorded history after recording the batch (statement contract), independently of verbose (not mentioned in any guard the proof depends on), and (e) write the checkpoint with the final counters whenever a saving folder is set.",
+   note="np.round is an uninterpreted function of (value, decimals); np.min is an assumed library contract; create_checkpoint's effect on disk is an assumed summary (content decided in C04)."),
+ "C18": dict(cat="proof", ref="5-C18",
+   text="Proved for line-ups of any length (loop invariants over symbolic dictionaries): _construct_samplers_id_table yields an injective table whose domain is exactly the class names of the list; update_samplers_id_table never reassigns an existing id, adds exactly the missing classes with fresh ids and keeps injectivity; calibrate() labels every row with the table id of the class of the sampler that produced it (and the table covers every sampler the scheduler can designate - class invariant).",
+   note="Recovery of the table from a checkpoint (plot utilities) is NOT provable: the table is not persisted (known finding, reported by the bounded stand-in C18/labels-e2e on histories with set_samplers/set_scheduler). set_samplers/set_scheduler themselves are thin callers of update_samplers_id_table."),
 }
 checks = []
 for p in props:
